@@ -56,6 +56,53 @@ TABLES = [
     ('T15', 'Attacker.compromise', ('C11', 'C09', 'C10')),
     ('T16', 'Attacker.undo_compromise', ('C11', 'C09')),
 ]
+# tier B: functions no structural rule pins down (found by the mutation sweep); reference = reviewed transcription
+# in reference/tables_ref_b.py (tools/make_ref_b.py).  Same comparison, same verdict policy as tier A.
+_V = 'malVisitor.'
+TABLES_B = [
+    # ---- the compiler: one visit method per grammar rule (C04; C17 for what an include merges)
+    *[(f'B{100 + i}', _V + m, ('C04',)) for i, m in enumerate([
+        'visitMal', 'visitInclude', 'visitDefine', 'visitCategory', 'visitMeta', 'visitAsset', 'visitStep', 'visitSteptype',
+        'visitTag', 'visitCias', 'visitCia', 'visitTtc', 'visitTtcexpr', 'visitTtcterm', 'visitTtcfact', 'visitTtcatom',
+        'visitTtcdist', 'visitPrecondition', 'visitReaches', 'visitNumber', 'visitVariable', 'visitExpr', 'visitParts',
+        'visitPart', '_resolve_part_ID_type', 'visitVarsubst', 'visitType', 'visitSetop', 'visitAssociations',
+        'visitAssociation', 'visitField', 'visitLinkname'])],
+    # ---- language graph queries and serialisers (C15)
+    *[(f'B{200 + i}', m, ('C15',)) for i, m in enumerate([
+        'LanguageGraphAsset.to_dict', 'LanguageGraphAsset.is_subasset_of', 'LanguageGraphAsset.get_all_subassets',
+        'LanguageGraphAsset.get_all_superassets', 'LanguageGraphAssociation.to_dict',
+        'LanguageGraphAssociation.contains_fieldname', 'LanguageGraphAssociation.contains_asset',
+        'LanguageGraphAssociation.get_opposite_fieldname', 'LanguageGraphAssociation.get_opposite_asset',
+        'LanguageGraphAttackStep.to_dict', 'LanguageGraphAttackStep.qualified_name', 'DependencyChain.to_dict',
+        'DependencyChain.__next__', 'LanguageGraph.reverse_dep_chain', 'LanguageGraph.process_step_expression',
+        'LanguageGraph._get_variable_for_asset_type_by_name', 'LanguageGraph.get_asset_by_name',
+        'LanguageGraph._to_dict'])],
+    # ---- attack graph: evaluation of step expressions, generation, bookkeeping, codec
+    ('B300', '_process_step_expression', ('C01', 'C16')),
+    ('B301', 'AttackGraph._generate_graph', ('C01', 'C02')),
+    ('B302', 'AttackGraph.add_node', ('C09', 'C02')),
+    ('B303', 'AttackGraph.remove_node', ('C09', 'C13')),
+    ('B304', 'AttackGraph.add_attacker', ('C09', 'C11')),
+    ('B305', 'AttackGraph.remove_attacker', ('C09', 'C11')),
+    ('B306', 'AttackGraph.attach_attackers', ('C11', 'C09')),
+    ('B307', 'AttackGraph._to_dict', ('C10',)),
+    ('B308', 'AttackGraph._from_dict', ('C10',)),
+    ('B309', 'AttackGraphNode.to_dict', ('C10',)),
+    ('B310', 'Attacker.to_dict', ('C10',)),
+    # ---- model codec (C07) and legacy loaders (C18, C19)
+    ('B400', 'Model._to_dict', ('C07',)),
+    ('B401', 'Model._from_dict', ('C07',)),
+    ('B402', 'Model.asset_to_dict', ('C07',)),
+    ('B403', 'Model.association_to_dict', ('C07',)),
+    ('B404', 'Model.attacker_to_dict', ('C07',)),
+    ('B405', 'Model.get_asset_defenses', ('C07', 'C02')),
+    ('B410', 'load_model_from_version_0_0_39._process_model', ('C18',)),
+    ('B411', 'load_model_from_scad_archive', ('C18',)),
+    ('B420', 'get_model', ('C19',)),
+    ('B421', 'ingest_model', ('C19',)),
+    ('B422', 'ingest_attack_graph', ('C19',)),
+]
+REF_B = os.path.join(os.path.dirname(os.path.dirname(os.path.abspath(__file__))), 'reference', 'tables_ref_b.py')
 STRIP_COPIES = {'T10'}
 # small pure methods that may be inlined into their callers
 INLINE_METHODS = [('AttackerAttachment', 'get_entry_point_tuple'), ('AttackGraphNode', 'is_compromised_by'), ('AttackGraphNode', 'is_compromised'),
@@ -144,6 +191,75 @@ def run(ctx) -> list[Inst]:
                               file=rel, line=f.node.lineno, props=props))
     insts += _no_visited_cut(ctx)
     insts += _no_self_read_fold(ctx)
+    insts += _tier_b(ctx)
+    return insts
+
+
+def _tier_b(ctx) -> list[Inst]:
+    prog = ctx.prog
+    from ..normalize import normalize
+    with open(REF_B, encoding='utf-8') as fh:
+        reft = normalize(ast.parse(fh.read()), inline=False)
+    ref_funcs = {n.name: n for n in reft.body if isinstance(n, ast.FunctionDef)}
+    insts = []
+    for (tid, fname, props) in TABLES_B:
+        rname = fname.replace('.', '__')
+        if rname not in ref_funcs:
+            raise AnalysisError(f'tier-B reference for {fname} missing (run tools/make_ref_b.py)')
+        construct = f'{tid}: decision table of {fname.split(".")[-1]} equals the reviewed reference'
+        if not prog.has_func(fname):
+            # merged into its caller / renamed: nothing to compare (the callers' own tables and rules still apply)
+            insts.append(Inst(RULE, fname, construct, 'unproven', msg='function not found under this name',
+                              file='', line=0, props=props, nontrivial=False))
+            continue
+        f = prog.func(fname)
+        rel = f.module.relpath
+        try:
+            ref_table = table_of(ref_funcs[rname], {})
+        except (Unsupported, RecursionError) as e:
+            insts.append(Inst(RULE, fname, construct, 'info', msg=f'reference outside the table language: {e}',
+                              file=rel, line=f.node.lineno, props=props, nontrivial=False))
+            continue
+        try:
+            table = table_of(f.node, {})
+        except RecursionError:
+            insts.append(Inst(RULE, fname, construct, 'unproven', msg='extractor recursion limit', file=rel,
+                              line=f.node.lineno, props=props))
+            continue
+        except Unsupported as e:
+            insts.append(Inst(RULE, fname, construct, 'unproven', msg=f'construct outside the table language: {e}',
+                              file=rel, line=f.node.lineno, props=props))
+            continue
+        if table == ref_table:
+            insts.append(Inst(RULE, fname, construct, 'ok', msg=f'{len(table[1])} essential atoms, {len(table[2])} rows',
+                              file=rel, line=f.node.lineno, props=props))
+            continue
+        v1, v2 = set(), set()
+        opaque_names(table, v1)
+        opaque_names(ref_table, v2)
+        extra = sorted(v1 - v2)
+        k1, k2 = set(), set()
+        imprecise_kinds(table, k1)
+        imprecise_kinds(ref_table, k2)
+        if not extra and k1 - k2:
+            extra = [f'<uninterpreted construct: {x}>' for x in sorted(k1 - k2)]
+        try:
+            d = diff_tables(table, ref_table)
+        except Exception as e:      # rendering only
+            d = f'tables differ (rendering failed: {e})'
+        # tier B decides only NEAR the reference: the same tests (essential atoms, at every nesting level) with a
+        # different outcome somewhere.  A table over other tests is a restructured function - which this comparison
+        # cannot tell from a changed one: unproven.
+        if not extra and sorted(map(repr, _all_atoms(table, []))) != sorted(map(repr, _all_atoms(ref_table, []))):
+            extra = ['<other tests than the reference: restructured>']
+        if extra:
+            insts.append(Inst(RULE, fname, construct, 'unproven',
+                              msg=f'table differs but uses names / constructs the reference does not know {extra}: {d[:300]}',
+                              file=rel, line=f.node.lineno, props=props))
+        else:
+            insts.append(Inst(RULE, fname, construct, 'violation',
+                              msg=f'{fname.split(".")[-1]} no longer does what its reviewed reference does: {d[:600]}',
+                              file=rel, line=f.node.lineno, props=props))
     return insts
 
 
@@ -305,3 +421,12 @@ def _no_self_read_fold(ctx) -> list[Inst]:
             insts.append(Inst(RULE, fname, construct, 'ok', file=rel, line=f0.node.lineno, props=('C08',),
                               nontrivial=bool(nreads)))
     return insts
+
+
+def _all_atoms(t, acc):
+    if isinstance(t, tuple):
+        if t and t[0] == 'table':
+            acc.append(tuple(t[1]))
+        for x in t:
+            _all_atoms(x, acc)
+    return acc
